@@ -290,7 +290,7 @@ class ModelFittingDataTree(ProblemSingleObjective):
                 lbd += [low_val]
                 ubd += [high_val]
 
-            elif isinstance(var.values, Sequence) and all(
+            elif isinstance(var.values, list) and all(
                 x == "_" for x in var.values[:]
             ):
                 if var.boundaries.ndim == 1:
